@@ -643,3 +643,122 @@ def solve_box(tier="quick", seed=0, only=None):
             seen.add(f["label"])
             uniq.append(f)
     return result(cases, uniq, "boxed scenarios x 4 Newton variants x controllers, iteration_limit=60")
+
+
+def _caching(problem, fmt):
+    """variant of `problem` whose callbacks return cached (memoised per point) objects in the given sparse format"""
+    import copy
+
+    import scipy.sparse as sp
+
+    conv = {"coo": sp.coo_matrix, "csr": sp.csr_matrix, "csc": sp.csc_matrix}[fmt]
+
+    class C(type(problem)):
+        pass
+
+    w = copy.copy(problem)
+    w.__class__ = C
+    cache = {}
+
+    def memo(kind, f, mat=False):
+        def g(self, x, *a):
+            key = (kind, np.asarray(x).tobytes()) + tuple(np.asarray(v).tobytes() for v in a)
+            if key not in cache:
+                v = f(x, *a)
+                cache[key] = conv(v) if mat else (np.array(v, dtype=float) if not np.isscalar(v) else v)
+            return cache[key]
+
+        return g
+
+    C.obj = memo("obj", problem.obj)
+    C.obj_grad = memo("obj_grad", problem.obj_grad)
+    C.cons = memo("cons", problem.cons)
+    C.cons_jac = memo("cons_jac", problem.cons_jac, True)
+    C.lag_hess = memo("lag_hess", problem.lag_hess, True)
+    w._cache = cache
+    return w
+
+
+def _snap(v):
+    import scipy.sparse as sp
+
+    if sp.issparse(v):
+        c = v.tocoo(copy=True)
+        return ("sp", c.shape, c.row.tobytes(), c.col.tobytes(), c.data.tobytes())
+    if isinstance(v, np.ndarray):
+        return ("nd", v.tobytes())
+    return ("sc", repr(v))
+
+
+@native("native.c11.caller_data", ["C11"])
+def caller_data(tier="quick", seed=0, only=None):
+    """bounded: (a) every problem-wrapper method called on cached user objects in COO/CSR/CSC: the objects keep their
+    values; (b) twin solves: fresh-returning vs memoising problem variants give byte-identical results; x0, y0,
+    bounds and scaling weights keep their values"""
+    use_repo()
+    from pygradflow.cons_problem import ConstrainedProblem
+    from pygradflow.scale import ScaledProblem, Scaling
+
+    failures, cases = [], 0
+    S = scenarios()
+    for name, (mk, x0, y0) in S.items():
+        for fmt in FORMATS:
+            base = mk()
+            n, m = base.num_vars, base.num_cons
+            for scaled in (False, True):
+                inp = dict(scenario=name, format=fmt, scaled=scaled, level="wrapper-methods")
+                if only is not None and only != inp:
+                    continue
+                cp_ = _caching(base, fmt)
+                scaling = Scaling(np.arange(n) % 3 - 1, (np.arange(m) % 3) - 1, 2)
+                inner = ScaledProblem(cp_, scaling) if scaled else cp_
+                tp = ConstrainedProblem(inner)
+                x = np.linspace(0.1, 0.7, tp.num_vars)
+                y = np.linspace(-0.3, 0.4, m)
+                for meth, args in (("obj", (x,)), ("obj_grad", (x,)), ("cons", (x,)), ("cons_jac", (x,)), ("lag_hess", (x, y))):
+                    if m == 0 and meth in ("cons", "cons_jac"):
+                        continue
+                    getattr(tp, meth)(*args)  # fills the cache
+                    before = {k: _snap(v) for k, v in cp_._cache.items()}
+                    getattr(tp, meth)(*args)
+                    after = {k: _snap(v) for k, v in cp_._cache.items()}
+                    cases += 1
+                    changed = [k[0] for k in before if before[k] != after[k]]
+                    if changed:
+                        failures.append(dict(label=f"C11:cached_{changed[0]}_object_modified_by_{'ScaledProblem' if scaled else 'ConstrainedProblem'}.{meth}:{fmt}", input=dict(inp, method=meth), observed=f"cached {changed} changed value"))
+            # (b) twin solves
+            for scal in ("none", "custom"):
+                inp = dict(scenario=name, format=fmt, scaling=scal, level="solve")
+                if only is not None and only != inp:
+                    continue
+                kw = dict(iteration_limit=30)
+                if scal == "custom":
+                    from pygradflow.params import ScalingType
+
+                    kw.update(scaling=Scaling(np.arange(n) % 3 - 1, (np.arange(m) % 3) - 1, 1), scaling_type=ScalingType.Custom)
+                pa = mk_params(**kw)
+                xa = None if x0 is None else np.array(x0, copy=True)
+                ya = None if y0 is None else np.array(y0, copy=True)
+                fresh = run(mk(), pa, xa, ya)
+                cach_p = _caching(mk(), fmt)
+                owned = dict(x0=xa, y0=ya, var_lb=cach_p.var_lb, var_ub=cach_p.var_ub, cons_lb=cach_p.cons_lb, cons_ub=cach_p.cons_ub)
+                if scal == "custom":
+                    owned.update(var_weights=pa.scaling.var_weights, cons_weights=pa.scaling.cons_weights)
+                snaps = {k: _snap(v) for k, v in owned.items() if v is not None}
+                cached = run(cach_p, pa, xa, ya)
+                cases += 1
+                for k, v in owned.items():
+                    if v is not None and _snap(v) != snaps[k]:
+                        failures.append(dict(label=f"C11:{k}_modified_by_solve", input=inp, observed=k))
+                diff = _same_trajectory(fresh, cached)
+                if diff:
+                    failures.append(dict(label=f"C11:cached_callbacks_change_the_result:{fmt}:{scal}", input=inp, observed=diff))
+    seen, uniq = set(), []
+    for f in failures:
+        if f["label"] not in seen:
+            seen.add(f["label"])
+            uniq.append(f)
+    return result(cases, uniq, "scenario list x {COO,CSR,CSC} x {unscaled, custom scaling}; wrapper methods and 30-iteration solves")
+
+
+FORMATS = ["coo", "csr", "csc"]
